@@ -883,4 +883,23 @@ def main():
 
 
 if __name__ == '__main__':
-    sys.exit(main())
+    try:
+        _rc = main()
+    except SystemExit:
+        raise
+    except BaseException as _e:       # noqa: B902 - fail closed: a harness that dies shows nothing about the property
+        import traceback
+        _tb = traceback.format_exc()
+        sys.stderr.write(_tb)
+        _pid = next((a for a in sys.argv[1:] if not a.startswith('-')), 'unknown')
+        try:
+            _rid = getattr(importlib.import_module('props.%s' % _pid), 'PROPERTY', _pid)
+        except Exception:
+            _rid = _pid
+        _p = write_replay(_pid, dict(property=_rid, case=None,
+                                     broken=['the check itself stopped with %s: %s — nothing is shown about the property '
+                                             'on this tree' % (type(_e).__name__, str(_e)[:300]), _tb[-1500:]]))
+        print('VIOLATION property=%s replay=%s no-failing-input-found' % (_rid, _p))
+        sys.stdout.flush()
+        _rc = 1
+    sys.exit(_rc)
